@@ -19,8 +19,8 @@ Definition json_state_none (_ : list Z) : HWCState := empty_state.
 Definition json_msgs_none (_ : list Z) : list (option InboundMessage) := [].
 Definition nc_parse_run (s : list Z) : option (list Z) := Some s.
 
-Definition one_line_trimmed_run (j : list Z) : bool := one_line j && bytes_eqb (trim_space j) j.
-Definition rep_msg_run := rep_msg one_line_trimmed_run one_line.
+Definition one_line_trimmed_run (j : list Z) : bool := single_line j && bytes_eqb (trim_space j) j.
+Definition rep_msg_run := rep_msg one_line_trimmed_run single_line.
 
 (* wire-reachable: no nil element in repeated message fields *)
 Definition wire_reachable (m : InboundMessage) : bool :=
